@@ -362,7 +362,9 @@ theorem dependencies_rec_reads {g : G} {s : Spec} (h : Refines g s) {x : Nat} (h
 def Spec.graft (s t : Spec) (x : Nat) : Spec :=
   let term := fun u => t.N u ∧ ¬ ∃ w, t.E u w
   let init := fun w => t.N w ∧ ¬ ∃ u, t.E u w
-  let added := fun u w => (term u ∧ s.E x w) ∨ (s.E u x ∧ init w) ∨ ((∀ z, ¬ t.N z) ∧ s.E u x ∧ s.E x w)
+  -- an edge from `x` to itself disappears with it
+  let added := fun u w => (term u ∧ s.E x w ∧ w ≠ x) ∨ ((s.E u x ∧ u ≠ x) ∧ init w) ∨
+    ((∀ z, ¬ t.N z) ∧ (s.E u x ∧ u ≠ x) ∧ s.E x w ∧ w ≠ x)
   ⟨fun z => (s.N z ∧ z ≠ x) ∨ t.N z ∨ ∃ w, added z w ∨ added w z,
    fun u w => (s.E u w ∧ u ≠ x ∧ w ≠ x) ∨ t.E u w ∨ added u w⟩
 
@@ -396,7 +398,26 @@ theorem graft_preserves_order {g sub : G} {s t : Spec} (hg : Refines g s) (hs : 
         (Relation.TransGen g'.Edge u w ↔ Relation.TransGen s.E u w) := by
   obtain ⟨g', hgr, hr⟩ := graft_refines_spec hg hs hx
   refine ⟨g', hgr, hr, ?_⟩
-  have eE' : g'.Edge = graftE s.E t.N t.E x := by funext u w; exact propext (hr.2.2 u w)
+  have eE' : g'.Edge = graftE s.E t.N t.E x := by
+    funext u w
+    refine propext ((hr.2.2 u w).trans ?_)
+    have hw : ∀ w', s.E x w' → w' ≠ x := fun w' h e => hxx (e ▸ h)
+    have hu : ∀ u', s.E u' x → u' ≠ x := fun u' h e => hxx (e ▸ h)
+    unfold Spec.graft graftE
+    simp only
+    constructor
+    · rintro (h | h | ⟨h1, h2, _⟩ | ⟨⟨h1, _⟩, h2⟩ | ⟨h0, ⟨h1, _⟩, h2, _⟩)
+      · exact Or.inl h
+      · exact Or.inr (Or.inl h)
+      · exact Or.inr (Or.inr (Or.inl ⟨h1, h2⟩))
+      · exact Or.inr (Or.inr (Or.inr (Or.inl ⟨h1, h2⟩)))
+      · exact Or.inr (Or.inr (Or.inr (Or.inr ⟨h0, h1, h2⟩)))
+    · rintro (h | h | ⟨h1, h2⟩ | ⟨h1, h2⟩ | ⟨h0, h1, h2⟩)
+      · exact Or.inl h
+      · exact Or.inr (Or.inl h)
+      · exact Or.inr (Or.inr (Or.inl ⟨h1, h2, hw w h2⟩))
+      · exact Or.inr (Or.inr (Or.inr (Or.inl ⟨⟨h1, hu u h1⟩, h2⟩)))
+      · exact Or.inr (Or.inr (Or.inr (Or.inr ⟨h0, ⟨h1, hu u h1⟩, h2, hw w h2⟩)))
   have hEs : ∀ u w, s.E u w → s.N u ∧ s.N w := by
     intro u w h
     have := edge_nodes ((hg.2.2 u w).2 h)
